@@ -424,9 +424,15 @@ var pkgLine = regexp.MustCompile(`(?m)^package\s+\w+`)
 // harness as package xorold with its build constraint removed, so that the
 // word-wise implementation the default toolchain never selects is compiled
 // and tested. The file is regenerated on every run.
-func stripTags(repo, verif string) error {
+func stripTags(repo, verif, out string, overlays ...*overlay) error {
 	src := filepath.Join(repo, "utils", "xor", "xor_old.go")
-	dst := filepath.Join(verif, "harness", "xorold", "xor_old_gen.go")
+	dst := filepath.Join(out, "gen", "xor_old_gen.go")
+	if err := os.MkdirAll(filepath.Dir(dst), 0o755); err != nil {
+		return err
+	}
+	for _, o := range overlays {
+		o.Replace[filepath.Join(verif, "harness", "xorold", "xor_old_gen.go")] = dst
+	}
 	b, err := os.ReadFile(src)
 	var text string
 	if err != nil {
